@@ -25,10 +25,15 @@ use serde_json::json;
 
 pub const REQ: &str = "Common.Base Meta.Model_Serde";
 
-fn short<T: std::fmt::Debug>(x: &T) -> String {
-    let mut s = format!("{:?}", x);
+pub fn short<T: std::fmt::Debug>(x: &T) -> String {
+    // Debug of a rowid Bitmap whose data is shorter than its length panics: keep the harness alive
+    let mut s = catch(|| format!("{:?}", x)).unwrap_or_else(|_| "<Debug panicked>".to_string());
     if s.len() > 700 {
-        s.truncate(700);
+        let mut n = 700;
+        while !s.is_char_boundary(n) {
+            n -= 1;
+        }
+        s.truncate(n);
         s.push_str("...");
     }
     s
@@ -138,7 +143,7 @@ fn arm_rowids(args: &Args, sink: &mut Sink, rng: &mut Rng) {
     let mut s_of = Stream::new("seg_of", REQ, "chk_seg_of", "pb_segment", "outcome segment");
     let mut domain: Vec<U64Segment> = vec![];
     // pb-first
-    for i in 0..args.vol(250, 4000) {
+    for i in 0..args.vol(200, 2000) {
         let bad = i % 4 == 0;
         let p = pb_seg(rng, bad);
         let r = catch(|| U64Segment::try_from(p.clone()));
@@ -152,7 +157,7 @@ fn arm_rowids(args: &Args, sink: &mut Sink, rng: &mut Rng) {
         }
     }
     // domain-first through the public encoders (these choose the variant the way real tables do)
-    for _ in 0..args.vol(80, 1500) {
+    for _ in 0..args.vol(60, 800) {
         let base = u64i(rng) >> 2;
         let n = rng.below(30);
         let mut vals: Vec<u64> = (0..n).map(|i| base + i * (1 + rng.below(3))).collect();
@@ -162,7 +167,13 @@ fn arm_rowids(args: &Args, sink: &mut Sink, rng: &mut Rng) {
             2 => vals.dedup(),
             _ => {}
         }
-        domain.push(U64Segment::from_iter(vals.iter().copied()));
+        // row ids are unique (precondition of the encoder, C34's domain): drop repeats, keep order
+        let mut seen = std::collections::HashSet::new();
+        vals.retain(|v| seen.insert(*v));
+        match catch(|| U64Segment::from_iter(vals.iter().copied())) {
+            Ok(sg) => domain.push(sg),
+            Err(_) => sink.count("segment:encoder-panicked-skipped"),
+        }
         if n > 2 {
             let holes: Vec<u64> = vals.iter().copied().filter(|_| rng.chance(1, 4)).collect();
             domain.push(U64Segment::RangeWithHoles { range: base..base + 200, holes: holes.into() });
@@ -177,7 +188,7 @@ fn arm_rowids(args: &Args, sink: &mut Sink, rng: &mut Rng) {
     // version sequences (all fields public): lists of runs over the segments above
     let mut v_to = Stream::new("vseq_to", REQ, "chk_vseq_to", "vseq", "pb_vseq * bool");
     let mut v_of = Stream::new("vseq_of", REQ, "chk_vseq_of", "pb_vseq", "outcome vseq");
-    for _ in 0..args.vol(120, 2500) {
+    for _ in 0..args.vol(100, 1200) {
         let n = match rng.below(5) { 0 => 0, 1 => 1, 2 => 12 + rng.below(20), _ => rng.below(6) };
         let runs: Vec<RowDatasetVersionRun> = (0..n).map(|_| RowDatasetVersionRun { span: if domain.is_empty() || rng.chance(1, 3) { U64Segment::Range(0..rng.below(100)) } else { rng.pick(&domain).clone() }, version: u64i(rng) }).collect();
         let x = RowDatasetVersionSequence { runs };
@@ -210,7 +221,7 @@ fn arm_rowids(args: &Args, sink: &mut Sink, rng: &mut Rng) {
 
     // row id sequences through write_row_ids / read_row_ids
     let mut r_of = Stream::new("rowids_of", REQ, "chk_rowids_of", "list pb_segment", "outcome (list (segment * list bool))");
-    for i in 0..args.vol(150, 3000) {
+    for i in 0..args.vol(80, 800) {
         let mut x = RowIdSequence::new();
         if i % 3 == 0 {
             // natural construction: ranges, arrays, deletions, masks
@@ -232,7 +243,9 @@ fn arm_rowids(args: &Args, sink: &mut Sink, rng: &mut Rng) {
                 x.extend(part);
             }
         } else {
-            let segs: Vec<pb::U64Segment> = (0..rng.below(5)).map(|_| pb::U64Segment::from(rng.pick(&domain).clone())).collect();
+            // (segments whose bitmap bytes are shorter than the range cannot be printed by Debug: left to the seg streams)
+            let printable: Vec<&U64Segment> = domain.iter().filter(|s| !matches!(s, U64Segment::RangeWithBitmap { bitmap, .. } if bitmap.data.len() * 8 < bitmap.len)).collect();
+            let segs: Vec<pb::U64Segment> = (0..rng.below(5)).map(|_| pb::U64Segment::from((*rng.pick(&printable)).clone())).collect();
             x = RowIdSequence::try_from(pb::RowIdSequence { segments: segs }).unwrap();
         }
         let bytes = write_row_ids(&x);
@@ -247,7 +260,12 @@ fn arm_rowids(args: &Args, sink: &mut Sink, rng: &mut Rng) {
         let mut p = pb::RowIdSequence::decode(bytes.as_slice()).unwrap_or_default();
         if !p.segments.is_empty() && rng.chance(1, 5) {
             let j = rng.below(p.segments.len() as u64) as usize;
-            p.segments[j] = pb_seg(rng, true);
+            let q = pb_seg(rng, true);
+            // keep Debug-printable (see above)
+            let short_bitmap = matches!(&q.segment, Some(pb::u64_segment::Segment::RangeWithBitmap(b)) if b.end >= b.start && (b.bitmap.len() as u64) * 8 < b.end - b.start);
+            if !short_bitmap {
+                p.segments[j] = q;
+            }
         }
         let r = catch(|| read_row_ids(&p.encode_to_vec()));
         let out = outcome(&r, |y| rd::rowids_view_dbg(&format!("{:?}", y)));
@@ -262,7 +280,7 @@ fn arm_rowids(args: &Args, sink: &mut Sink, rng: &mut Rng) {
 fn arm_fragments(args: &Args, sink: &mut Sink, rng: &mut Rng) {
     let mut s_to = Stream::new("frag_to", REQ, "chk_frag_to", "fragment", "pb_fragment * bool");
     let mut s_of = Stream::new("frag_of", REQ, "chk_frag_of", "pb_fragment", "outcome fragment");
-    for i in 0..args.vol(300, 5000) {
+    for i in 0..args.vol(250, 2500) {
         let known = i % 5 == 0;
         let x = fragment(rng, known, false);
         let cls = if frag_in_default_class(&x) { CL_DEFAULT } else { 0 };
@@ -304,7 +322,7 @@ fn arm_fragments(args: &Args, sink: &mut Sink, rng: &mut Rng) {
 fn arm_index(args: &Args, sink: &mut Sink, rng: &mut Rng) {
     let mut s_to = Stream::new("idx_to", REQ, "chk_idx_to", "index_meta", "pb_index_meta * bool");
     let mut s_of = Stream::new("idx_of", REQ, "chk_idx_of", "pb_index_meta", "outcome index_meta");
-    for i in 0..args.vol(250, 4000) {
+    for i in 0..args.vol(200, 2000) {
         let known = i % 5 == 0;
         let x = index_meta(rng, known);
         let cls = if idx_submilli(&x) { CL_SUBMILLI } else { 0 };
@@ -331,7 +349,7 @@ fn arm_index(args: &Args, sink: &mut Sink, rng: &mut Rng) {
 fn arm_memwal(args: &Args, sink: &mut Sink, rng: &mut Rng) {
     let mut s_to = Stream::new("mw_to", REQ, "chk_mw_to", "mem_wal", "pb_mem_wal * bool");
     let mut s_of = Stream::new("mw_of", REQ, "chk_mw_of", "pb_mem_wal", "outcome mem_wal");
-    for _ in 0..args.vol(150, 2500) {
+    for _ in 0..args.vol(100, 1200) {
         let x = mem_wal(rng);
         roundtrip_case(sink, &mut s_to, "memwal", &x, 0, |x| pb::mem_wal_index_details::MemWal::from(x), MemWal::try_from, rd::mw_dom, rd::mw_pb, short(&x));
         let mut p = pb::mem_wal_index_details::MemWal::from(&x);
@@ -365,7 +383,7 @@ fn arm_manifest(args: &Args, sink: &mut Sink, rng: &mut Rng) {
     let mut s_of = Stream::new("mf_of", REQ, "chk_mf_of", "pb_manifest", "outcome manifest");
     s_to.shard = 100;
     s_of.shard = 100;
-    for i in 0..args.vol(200, 3000) {
+    for i in 0..args.vol(150, 1200) {
         let known = i % 5 == 0;
         let x = manifest(rng, known);
         let cls = if manifest_in_default_class(&x) { CL_DEFAULT } else { 0 };
@@ -410,10 +428,10 @@ fn arm_txn(args: &Args, sink: &mut Sink, rng: &mut Rng) {
     let mut s_to = Stream::new("txn_to", REQ, "chk_txn_to", "transaction", "pb_transaction * bool");
     let mut s_of = Stream::new("txn_of", REQ, "chk_txn_of", "pb_transaction", "outcome transaction");
     let mut s_cl = Stream::new("txn_class", REQ, "chk_txn_class", "transaction", "N");
-    s_to.shard = 100;
-    s_of.shard = 100;
-    s_cl.shard = 200;
-    let per = args.vol(30, 400);
+    s_to.shard = 250;
+    s_of.shard = 250;
+    s_cl.shard = 500;
+    let per = args.vol(24, 200);
     for kind in 0..15u64 {
         for i in 0..per {
             let known = i % 3 == 0;
